@@ -178,3 +178,36 @@ Proof.
     apply (C15_throw_effect_prio None ex_state_prio 0 (EUser 1) s' 0 (proj1 (proj1 C09_example_prio)) E).
   - vm_compute. repeat split; reflexivity.
 Qed.
+
+(* ... and with starvation boosting enabled (any boost factor and draws): qok_boost
+   (Props/C09.v, C09_qspec_prio_boost / C09_inv_prio_boost) *)
+From Asynkit Require Import Sched.PrioQueueBoost.
+
+Theorem C15_current_refused_prio_boost :
+  forall s t e, InvC qok_boost (Some t) s -> exists k, task_throw s t e = (s, RExc (ERuntime k)).
+Proof. exact (throw_current_refused qok_boost QSpec_boost). Qed.
+Print Assumptions C15_current_refused_prio_boost.
+
+Theorem C15_throw_effect_prio_boost :
+  forall c s t e s' v,
+  InvC qok_boost c s -> task_throw s t e = (s', RVal v) ->
+  InvC qok_boost c s' /\ is_cur c t = false /\ tdone s' t = false /\
+  hcnt s' t = 1 /\ bo s' t = None /\ twaiter (gett s' t) = None /\
+  handles s' = handles s ++ [mkH (HStep t (Some e)) false] /\
+  In (length (handles s)) (rq_items (ready s')) /\
+  (forall t', t' <> t -> hcnt s' t' = hcnt s t') /\
+  (forall g, fdone s' g = false -> ccnt s' t g = 0).
+Proof.
+  intros c s t e s' v I E.
+  pose proof (throw_effect qok_boost QSpec_boost c s t e s' v I E) as H. cbv zeta in H.
+  destruct H as (H1 & H2 & H3 & H4 & H5 & H6 & H7 & H8 & _ & _ & _ & H12 & _ & _ & H15 & _).
+  repeat (split; [assumption|]). assumption.
+Qed.
+Print Assumptions C15_throw_effect_prio_boost.
+
+Theorem C15_no_second_resume_prio_boost :
+  forall c s t g x s' ok,
+  InvC qok_boost c s -> is_cur c t = false -> t < length (tasks s) -> tdone s t = false ->
+  bo s t = None -> x <> FPending -> fut_finish s g x = (s', ok) -> hcnt s' t = hcnt s t.
+Proof. exact (no_second_resume qok_boost QSpec_boost). Qed.
+Print Assumptions C15_no_second_resume_prio_boost.
